@@ -3,7 +3,7 @@ import Cdecao.Proofs.SpecExec
 /-! # The CdE reader delivers a well-formed problem (C12)
 
 `CD.read` (model of io::cdedb::read) either fails or returns participants and courses whose
-conversion `CD.toInst` to the node model's instance satisfies the validity hypotheses under which the
+conversion `CD.toInstR` to the node model's instance satisfies the validity hypotheses under which the
 node-level theorems are stated:
 
 * every choice names a course `< courses.length`, every instructor entry a participant `< parts.length`;
@@ -19,7 +19,7 @@ open JS
 
 /-- the conversion of the reader's result to the node model's instance (the same as the `I` of
     `CDD.instOf` in Driver.lean) -/
-def toInst (parts : List Part) (courses : List Course) (rooms : Option (List Nat)) : N2.Inst :=
+def toInstR (parts : List Part) (courses : List Course) (rooms : Option (List Nat)) : N2.Inst :=
   { cs := courses.map (fun c => ⟨c.numMin, c.numMax, c.fixed, c.instructors⟩)
     ps := parts.map (fun p => ⟨p.choices.map (fun (c, pen) => ⟨c, pen⟩)⟩)
     rooms := rooms }
@@ -571,24 +571,24 @@ open JS
 
 /-! ## the converted instance -/
 
-theorem toInst_C (parts : List Part) (courses : List Course) (rooms : Option (List Nat)) :
-    (toInst parts courses rooms).C = courses.length := by simp [toInst, N2.Inst.C]
+theorem toInstR_C (parts : List Part) (courses : List Course) (rooms : Option (List Nat)) :
+    (toInstR parts courses rooms).C = courses.length := by simp [toInstR, N2.Inst.C]
 
-theorem toInst_P (parts : List Part) (courses : List Course) (rooms : Option (List Nat)) :
-    (toInst parts courses rooms).P = parts.length := by simp [toInst, N2.Inst.P]
+theorem toInstR_P (parts : List Part) (courses : List Course) (rooms : Option (List Nat)) :
+    (toInstR parts courses rooms).P = parts.length := by simp [toInstR, N2.Inst.P]
 
-theorem toInst_allInstructors (parts : List Part) (courses : List Course) (rooms : Option (List Nat)) :
-    (toInst parts courses rooms).allInstructors = allInstr courses := by
-  simp only [toInst, N2.Inst.allInstructors, allInstr, List.flatMap_map]
+theorem toInstR_allInstructors (parts : List Part) (courses : List Course) (rooms : Option (List Nat)) :
+    (toInstR parts courses rooms).allInstructors = allInstr courses := by
+  simp only [toInstR, N2.Inst.allInstructors, allInstr, List.flatMap_map]
 
 /-- a choice of the converted instance is a choice of a participant the reader returned -/
-theorem toInst_choice_mem {parts : List Part} {courses : List Course} {rooms : Option (List Nat)}
-    {p : Nat} {ch : N2.Choice} (h : ch ∈ ((toInst parts courses rooms).part p).choices) :
+theorem toInstR_choice_mem {parts : List Part} {courses : List Course} {rooms : Option (List Nat)}
+    {p : Nat} {ch : N2.Choice} (h : ch ∈ ((toInstR parts courses rooms).part p).choices) :
     ∃ q ∈ parts, (ch.course, ch.penalty) ∈ q.choices := by
   have hp := N2.part_choices_lt _ h
   have hm := N2.part_mem _ hp
-  generalize (toInst parts courses rooms).part p = pt at h hm
-  simp only [toInst, List.mem_map] at hm
+  generalize (toInstR parts courses rooms).part p = pt at h hm
+  simp only [toInstR, List.mem_map] at hm
   obtain ⟨q, hq, rfl⟩ := hm
   refine ⟨q, hq, ?_⟩
   simp only [List.mem_map] at h
@@ -600,15 +600,15 @@ variable {rdata : List (String × J)} {t : Nat} {parts : List Part} {courses : L
 
 /-- (i) no `precompute_problem` panic: all indices are in range -/
 theorem ReadWF.precomputeOk (h : ReadWF rdata t parts courses) (rooms : Option (List Nat)) :
-    (toInst parts courses rooms).precomputeOk = true := by
-  simp only [N2.Inst.precomputeOk, Bool.and_eq_true, List.all_eq_true, decide_eq_true_eq, toInst_C, toInst_P]
+    (toInstR parts courses rooms).precomputeOk = true := by
+  simp only [N2.Inst.precomputeOk, Bool.and_eq_true, List.all_eq_true, decide_eq_true_eq, toInstR_C, toInstR_P]
   constructor
   · intro c hc i hi
-    simp only [toInst, List.mem_map] at hc
+    simp only [toInstR, List.mem_map] at hc
     obtain ⟨c0, hc0, rfl⟩ := hc
     exact h.instr_lt c0 hc0 i hi
   · intro p hp ch hch
-    simp only [toInst, List.mem_map] at hp
+    simp only [toInstR, List.mem_map] at hp
     obtain ⟨q, hq, rfl⟩ := hp
     simp only [List.mem_map] at hch
     obtain ⟨⟨c, pen⟩, hcp, rfl⟩ := hch
@@ -616,15 +616,15 @@ theorem ReadWF.precomputeOk (h : ReadWF rdata t parts courses) (rooms : Option (
 
 /-- (ii) `numMin ≤ numMax`, executable form -/
 theorem ReadWF.minMaxb (h : ReadWF rdata t parts courses) (rooms : Option (List Nat)) :
-    (toInst parts courses rooms).cs.all (fun c => decide (c.numMin ≤ c.numMax)) = true := by
-  simp only [List.all_eq_true, decide_eq_true_eq, toInst, List.mem_map]
+    (toInstR parts courses rooms).cs.all (fun c => decide (c.numMin ≤ c.numMax)) = true := by
+  simp only [List.all_eq_true, decide_eq_true_eq, toInstR, List.mem_map]
   rintro c ⟨c0, hc0, rfl⟩
   exact h.min_le_max c0 hc0
 
 /-- (ii) `numMin ≤ numMax` for every course of the instance -/
 theorem ReadWF.minMax (h : ReadWF rdata t parts courses) (rooms : Option (List Nat)) :
-    ∀ c, c < (toInst parts courses rooms).C →
-      ((toInst parts courses rooms).course c).numMin ≤ ((toInst parts courses rooms).course c).numMax := by
+    ∀ c, c < (toInstR parts courses rooms).C →
+      ((toInstR parts courses rooms).course c).numMin ≤ ((toInstR parts courses rooms).course c).numMax := by
   intro c hc
   have := h.minMaxb rooms
   simp only [List.all_eq_true, decide_eq_true_eq] at this
@@ -632,32 +632,32 @@ theorem ReadWF.minMax (h : ReadWF rdata t parts courses) (rooms : Option (List N
 
 /-- (iii) every participant index occurs at most once over all instructor lists, executable form -/
 theorem ReadWF.nodupb (h : ReadWF rdata t parts courses) (rooms : Option (List Nat)) :
-    N2.nodupb (toInst parts courses rooms).allInstructors = true := by
-  rw [N2.nodupb_iff, toInst_allInstructors]; exact h.nodup
+    N2.nodupb (toInstR parts courses rooms).allInstructors = true := by
+  rw [N2.nodupb_iff, toInstR_allInstructors]; exact h.nodup
 
 /-- (iv) every penalty of the instance is smaller than the length of the `choices` array of the
     registration the participant stems from -/
 theorem ReadWF.pen_lt (h : ReadWF rdata t parts courses) (rooms : Option (List Nat)) :
-    ∀ p ch, ch ∈ ((toInst parts courses rooms).part p).choices →
+    ∀ p ch, ch ∈ ((toInstR parts courses rooms).part p).choices →
       ∃ k v chs, (k, v) ∈ rdata ∧ regChoices v t = some chs ∧ ch.penalty < chs.length := by
   intro p ch hch
-  obtain ⟨q, hq, hm⟩ := toInst_choice_mem hch
+  obtain ⟨q, hq, hm⟩ := toInstR_choice_mem hch
   obtain ⟨k, v, h1, -, chs, h3, h4⟩ := h.pen q hq
   exact ⟨k, v, chs, h1, h3, h4 _ hm⟩
 
 /-- `InstOK2` of the converted instance when no penalty exceeds the weight offset 50000 -/
 theorem ReadWF.instOK2 (h : ReadWF rdata t parts courses) (rooms : Option (List Nat))
     (hpen : ∀ p ∈ parts, ∀ ch ∈ p.choices, ch.2 ≤ N2.WEIGHT) :
-    N2.InstOK2 (toInst parts courses rooms) := by
+    N2.InstOK2 (toInstR parts courses rooms) := by
   refine N2.instOK2_of _ (h.precomputeOk rooms) ((N2.nodupb_iff _).1 (h.nodupb rooms)) ?_
   intro p ch hch
-  obtain ⟨q, hq, hm⟩ := toInst_choice_mem hch
+  obtain ⟨q, hq, hm⟩ := toInstR_choice_mem hch
   exact hpen q hq _ hm
 
 /-- `InstOK2` of the converted instance when no registration lists more than 50001 choices -/
 theorem ReadWF.instOK2_of_len (h : ReadWF rdata t parts courses) (rooms : Option (List Nat))
     (hlen : ∀ kv ∈ rdata, ∀ chs, regChoices kv.2 t = some chs → chs.length ≤ N2.WEIGHT + 1) :
-    N2.InstOK2 (toInst parts courses rooms) := by
+    N2.InstOK2 (toInstR parts courses rooms) := by
   refine h.instOK2 rooms ?_
   intro p hp ch hch
   obtain ⟨k, v, h1, -, chs, h3, h4⟩ := h.pen p hp
@@ -674,9 +674,9 @@ end
 theorem read_instOK2 {data : J} {o : Opts} {parts : List Part} {courses : List Course} {amb : Ambience}
     (h : read data o = .ok (parts, courses, amb)) (rooms : Option (List Nat))
     (hpen : ∀ p ∈ parts, ∀ ch ∈ p.choices, ch.2 ≤ N2.WEIGHT) :
-    N2.InstOK2 (toInst parts courses rooms) ∧
-      ∀ c, c < (toInst parts courses rooms).C →
-        ((toInst parts courses rooms).course c).numMin ≤ ((toInst parts courses rooms).course c).numMax := by
+    N2.InstOK2 (toInstR parts courses rooms) ∧
+      ∀ c, c < (toInstR parts courses rooms).C →
+        ((toInstR parts courses rooms).course c).numMin ≤ ((toInstR parts courses rooms).course c).numMax := by
   obtain ⟨rdata, -, wf⟩ := read_wellformed h
   exact ⟨wf.instOK2 rooms hpen, wf.minMax rooms⟩
 
@@ -686,9 +686,9 @@ theorem read_instOK2_of_len {data : J} {o : Opts} {parts : List Part} {courses :
     {amb : Ambience} (h : read data o = .ok (parts, courses, amb)) (rooms : Option (List Nat))
     (hlen : ∀ rdata, (data.get "registrations").bind J.asObject = some rdata →
       ∀ kv ∈ rdata, ∀ chs, regChoices kv.2 amb.trackId = some chs → chs.length ≤ N2.WEIGHT + 1) :
-    N2.InstOK2 (toInst parts courses rooms) ∧
-      ∀ c, c < (toInst parts courses rooms).C →
-        ((toInst parts courses rooms).course c).numMin ≤ ((toInst parts courses rooms).course c).numMax := by
+    N2.InstOK2 (toInstR parts courses rooms) ∧
+      ∀ c, c < (toInstR parts courses rooms).C →
+        ((toInstR parts courses rooms).course c).numMin ≤ ((toInstR parts courses rooms).course c).numMax := by
   obtain ⟨rdata, hrd, wf⟩ := read_wellformed h
   exact ⟨wf.instOK2_of_len rooms (hlen rdata hrd), wf.minMax rooms⟩
 
